@@ -8,8 +8,15 @@ import sys
 
 ROOT = os.path.dirname(os.path.dirname(os.path.abspath(__file__)))
 props = {json.loads(l)["id"]: json.loads(l) for l in open(os.path.join(ROOT, "properties.jsonl"))}
+import glob
 for pid in sys.argv[1:]:
     p = props[pid]
+    tried = []
+    for mp in sorted(glob.glob(os.path.join(ROOT, "seeded", pid + "-*", "meta.json"))):
+        tried.append("- " + json.load(open(mp))["what"])
+    first = len(tried) + 1
+    tried_txt = ("\n## Already tried by others (do NOT repeat these or close variants; pick different functions, mechanisms and trigger conditions)\n\n"
+                 + "\n".join(tried) + "\n") if tried else ""
     wt = "/tmp/seed/%s" % pid
     if not os.path.exists(wt):
         os.makedirs("/tmp/seed", exist_ok=True)
@@ -37,15 +44,16 @@ Quantified over: {p['quantifier']['text']}
 Relevant code (anchors): files {', '.join(a.get('files', []))}
 {mech}
 
+{tried_txt}
 ## What to produce
 
-THREE different, realistic changes (bugs a developer could plausibly introduce during a refactor, optimisation,
+TWO different, realistic changes (bugs a developer could plausibly introduce during a refactor, optimisation,
 "simplification", feature addition or merge) to the Go source in your worktree, each of which BREAKS this property
 while the code still compiles and the existing tests of the touched packages give the same results as on the unchanged
 tree. Each change must need something specific to manifest — a particular interleaving, a crash or fault at a
 particular point, a multi-step sequence of operations, an unusual input (size class, boundary value, repeated element,
 particular ordering), or two cooperating edits at different sites that each look fine alone — NOT something ordinary
-use would expose at once. Vary the three: different functions/sites, different mechanisms, at least one that is not
+use would expose at once. Vary the two: different functions/sites, different mechanisms, at least one that is not
 a one-token edit (e.g. introduces a helper, a cache, a fast path, a reordering of steps).
 
 For each change write a demonstration: a small Go test (in the worktree, in the package it belongs to, external
@@ -54,11 +62,12 @@ the property being violated (not merely that the code changed).
 
 ## Deliverables (under {wt}/_out/)
 
-For each change k in 1..3: `k/patch.diff` (`git diff` of the source change only, excluding the demo; applicable with
+For each change k in {first}..{first+1}: `k/patch.diff` (`git diff` of the source change only, excluding the demo; applicable with
 `git apply` at the repo root), `k/demo_test.go` (the demonstration, starting with a header comment that gives the package
 directory it belongs in and the exact `go test -run` command), `k/notes.md` (what the change is, what it needs in order
 to manifest, the commands you ran and their outcomes with and without the change, and the `-run` regex of the demo).
-After saving each patch revert the source (`git checkout -- .` inside {wt} only) before the next one. NEVER use `git stash` (the stash is shared between worktrees and other people are working in sibling worktrees); to set a change aside use `git diff > file` and `git apply -R file`. Finish with a
+After saving each patch revert the source (`git checkout -- .` inside {wt} only) before the next one. NEVER use `git stash` (the stash is shared between worktrees and other people are working in sibling worktrees); to set a change aside use `git diff > file` and `git apply -R file`. Also write `{wt}/_out/report.json`: a JSON list with one object per change: {{"k": <number>, "pkgdir": "<package dir of the demo>",
+"run_regex": "<-run regex>", "what": "<one sentence: the change>", "needs": "<one sentence: what it needs to manifest>", "tags": "<build tags the demo needs, or empty>"}}. Finish with a
 short report: for each change one line `k | package dir of demo | -run regex | one-sentence description | what it needs`.
 """
     open(os.path.join(wt, "_TASK.md"), "w").write(text)
